@@ -150,7 +150,7 @@ func convertUnsignedByte(integer *slip.UnsignedByte, target slip.Object, neg boo
 		} else {
 			_ = bi.SetBytes(integer.Bytes)
 		}
-		result = (*slip.Bignum)(&bi)
+		result = slip.IntegerFromBig(&bi)
 	case *slip.SignedByte:
 		bytes := make([]byte, len(integer.Bytes))
 		copy(bytes, integer.Bytes)
